@@ -50,7 +50,16 @@ func (r *yieldRewriter) rewriteRanges(block *ast.BlockStmt) {
 					do(cstNewStringIter, n.X)
 				case ty.Info()&types.IsInteger != 0:
 					// >= 1.22 only, but no release, need test
-					do(cstNewIntegerIter, n.X)
+					x := n.X
+					if tv, ok := r.pkg.TypeInfo().Types[n.X]; ok && tv.Value != nil {
+						// a constant bound takes the type of the iteration variable,
+						// e.g. var i uint8; for i = range 3
+						b, _ := tv.Type.(*types.Basic)
+						if b != nil && b.Kind() != types.Int && b.Info()&types.IsUntyped == 0 {
+							x = X.Call(X.Ident(b.Name()), n.X)
+						}
+					}
+					do(cstNewIntegerIter, x)
 				}
 			case *types.Array:
 				// typing workaround for abstract generic array iter
